@@ -399,6 +399,13 @@ func c16Patterns(r *Rng, headers []string) []string {
 }
 
 func runC16(prop string, res *Result, pool *DrvPool, r *Rng) {
+	// the command: every snapshot a scan returns - also one returned together with an error - is
+	// rendered exactly once (process() end to end, byte-exact against its model)
+	defer func() {
+		rule := res.Rule
+		runCLI(prop, res, pool, r.Fork())
+		res.Rule = rule + " | command level: " + res.Rule
+	}()
 	res.Rule = "snapshots parsed from generated dumps and race reports (names on) or constructed (local/rel paths, processed args, non-ASCII and invalid UTF-8 package/file names, sleep ranges, race addresses; a hostile stream with newlines, escape bytes and spaces in names; empty stacks; one width > 10^6) x 3 path formats x colour on/off x {AnyPointer, AnyValue} x banner x literal filter/match expressions cut from real headers (plus match-all and match-nothing), through writeBucketsToConsole and writeGoroutinesToConsole; non-trivial = at least 2 blocks or a call line; distinct by hash of (snapshot, view, path format, similarity)"
 	pfFull, pfRel, pfBase := verifhooks.PathFormats()
 	pfVal := map[string]int{"full": pfFull, "rel": pfRel, "base": pfBase}
